@@ -61,6 +61,14 @@ def run(tier, seed):
         s = S.DiscreteSet(members if len(members) > 1 else members[0])
         vals = [s.gen_sample() for _ in range(draws)]
         check('DiscreteSet', repr(members), all(any(v is m or (not isinstance(m, MA) and not isinstance(v, MA) and v == m) for m in members) for v in vals), 'DiscreteSet%r drew a non-member' % (members,))
+    # a single array-valued member (documented: DiscreteSet(MathArray([...]))): every draw is that array, never one of its rows or entries
+    for arr in (MA([[1, 0], [0, 1]]), MA([1, 2, 3]), MA([[1, 2, 3]])):
+        for cfg in (arr, (arr,), (arr, 5)):
+            s = S.DiscreteSet(cfg)
+            vals = [s.gen_sample() for _ in range(draws)]
+            ok = all((isinstance(v, MA) and v.shape == arr.shape and np.array_equal(v, arr)) or (isinstance(cfg, tuple) and len(cfg) == 2 and not isinstance(v, MA) and v == 5) for v in vals)
+            check('DiscreteSet (array member)', (repr(arr), type(cfg).__name__, len(cfg) if isinstance(cfg, tuple) else 0), ok,
+                  'DiscreteSet(%r) drew %r, which is not a listed member' % (cfg, [repr(v) for v in vals[:3]]))
     fns = [np.sin, np.cos, abs]
     s = S.SpecificFunctions(fns)
     check('SpecificFunctions', 'list', all(any(v is f for f in fns) for v in [s.gen_sample() for _ in range(draws)]), 'SpecificFunctions drew a function that is not listed')
